@@ -5,7 +5,7 @@ From PV Require Import Model.Prelude Model.Bits Model.Sig Model.Matcher Model.Se
 (* ---- the oracle: what pyp0f's own fingerprint says about an abstract output packet ---- *)
 Definition oracle (md : Z) (s : tcp_sig) (x : outp) : res (option mtype * Z) :=
   do bytes <- enc_out x;
-  match parse_packet (x_ver x) bytes with
+  match parse_datagram (x_ver x) bytes with
   | Framed (Ok k) => let p := sig_of k 0 in Ok (tcp_match md s p, s_ttl s - p_ttl p)
   | Framed (Err e) => Err e
   | Unframed => Err (Crash COther)
@@ -70,6 +70,6 @@ Definition tape_ok {A} (r : res A) : Prop := r <> Err OutOfFuel.
 (* ---- satisfiability, relative to the base packet's IP version and SYN / SYN+ACK type ---- *)
 Definition Satisfiable (md : Z) (s : tcp_sig) (b : base) : Prop :=
   exists pk k, Forall (fun c => 0 <= c < 256) pk /\
-    parse_packet (b_ver b) pk = Framed (Ok k) /\
+    parse_datagram (b_ver b) pk = Framed (Ok k) /\
     t_type (k_tcp k) = Z.land (b_flags b) 18 /\
     tcp_match md s (sig_of k 0) = Some Exact.
